@@ -37,6 +37,7 @@ def classify(toks):
 class Check(PropCheck):
     id = 'C13'
     stream = 'C13'
+    extra_modules = ('AHP.Props.C13Code',)       # ValidatingAdvancedHTMLParser.handle_endtag itself, interpreted in Lean, = the hand model's vStepT on end tags
     exhaustive_in = ('quick', 'thorough')
     rule = ('C02 token sequences (ALL sequences of length <= 4 quick / <= 5 thorough over a 12-token alphabet incl. a bad attribute '
             'name and a self-closed tag; seeded random sequences to length 40 with rich rendering), classified by an '
